@@ -256,10 +256,15 @@ def worker(outdir, k):
         orig = open(path).read()
         lines = orig.split('\n')
         res = dict(c)
-        if lines[c['line'] - 1] != c['old']:
+        at = c['line'] - 1
+        if at >= len(lines) or lines[at] != c['old']:
+            # the tree moved since the job was generated: nearest line with the same text
+            cands = [i for i, l in enumerate(lines) if l == c['old']]
+            at = min(cands, key=lambda i: abs(i - (c['line'] - 1))) if cands else -1
+        if at < 0:
             res['outcome'] = 'stale-job'
         else:
-            lines[c['line'] - 1] = c['new']
+            lines[at] = c['new']
             open(path, 'w').write('\n'.join(lines))
             try:
                 crate = {'daemon': 'rustybgpd', 'packet': 'rustybgp-packet', 'table': 'rustybgp-table',
